@@ -415,11 +415,14 @@ class Interp:
             raise AnalysisError("ABSINT", f"inlining bound {self.max_depth} exceeded at {fi.qual}")
         try:
             env = self._bind(fi, args, kwargs)
+            is_gen = self._is_generator(fi.node)
+            if is_gen:
+                env["__yielded__"] = []
             try:
                 self.exec_block(fi.node.body, env, fi)
             except _Return as r:
-                return r.value
-            return None
+                return env["__yielded__"] if is_gen else r.value
+            return env["__yielded__"] if is_gen else None
         finally:
             self.depth -= 1
 
@@ -447,12 +450,15 @@ class Interp:
         if self.depth > self.max_depth:
             self.depth -= 1
             raise AnalysisError("ABSINT", f"inlining bound {self.max_depth} exceeded at local {f.node.name}")
+        is_gen = self._is_generator(f.node)
+        if is_gen:
+            e2["__yielded__"] = []
         try:
             try:
                 self.exec_block(f.node.body, e2, f.fi)
             except _Return as r:
-                return r.value
-            return None
+                return e2["__yielded__"] if is_gen else r.value
+            return e2["__yielded__"] if is_gen else None
         finally:
             self.depth -= 1
 
@@ -777,6 +783,17 @@ class Interp:
             return "".join(parts)
         if isinstance(n, ast.Lambda):
             return Lambda(n, env, fi)
+        if isinstance(n, ast.Yield):
+            # generator functions are evaluated eagerly: the call returns the list of yielded values
+            if "__yielded__" not in env:
+                raise AnalysisError("ABSINT", "yield outside a generator function", loc(fi.unit.path, n) if fi else "")
+            env["__yielded__"].append(self.eval(n.value, env, fi) if n.value is not None else None)
+            return None
+        if isinstance(n, ast.YieldFrom):
+            if "__yielded__" not in env:
+                raise AnalysisError("ABSINT", "yield from outside a generator function", loc(fi.unit.path, n) if fi else "")
+            env["__yielded__"].extend(self.iterate(self.eval(n.value, env, fi)))
+            return None
         if isinstance(n, ast.NamedExpr):
             v = self.eval(n.value, env, fi)
             env[n.target.id] = v
@@ -935,6 +952,14 @@ class Interp:
         if fi is not None and name in self._locals(fi):
             raise AbsRaise(f"UnboundLocalError: {name}", loc(fi.unit.path, n))
         raise AnalysisError("ABSINT", f"unbound name {name}", loc(fi.unit.path, n) if fi else "")
+
+    def _is_generator(self, node: ast.AST) -> bool:
+        cache = self.__dict__.setdefault("_gen_cache", {})
+        k = id(node)
+        if k not in cache:
+            from .pm import walk_no_nested
+            cache[k] = any(isinstance(x, (ast.Yield, ast.YieldFrom)) for x in walk_no_nested(node))
+        return cache[k]
 
     def _locals(self, fi: FuncInfo) -> set[str]:
         key = id(fi.node)
